@@ -24,7 +24,7 @@ from ..core import Clause, Violation, require
 from .. import gens
 
 RULE = ("systems: conditioned cell (lengths 3-12, tilts up to half a length, crystal families, optionally rigidly rotated, origin up "
-        "to +-100, all pbc triples), 2-40 atoms as a small supercell of a 1-4 atom basis or as jittered grid points, optionally a "
+        "to +-100, all pbc triples), 1-40 atoms as a small supercell of a 1-4 atom basis or as jittered grid points, optionally a "
         "'twin' atom 0.004-0.2 from another, 1-3 types, 0-3 extra properties (float, int, bool, str, (3,), (2,2)), optionally a "
         "pre-existing old_id; operations: vacancy / interstitial / substitutional / dumbbell, directly or through point(), site by "
         "index (int, numpy int, negative) or by position (list / array / tuple, Cartesian or box-relative, through a periodic image "
@@ -49,6 +49,7 @@ WALL = {'quick': 70, 'thorough': 600}
 
 KEY_DB = 'C15:dumbbell:db_vect-scaled-origin'
 KEY_INT = 'C15:pos:integer-typed'
+KEY_ONE = 'C15:pos:single-atom-system'
 
 EPS = 2.220446049250313e-16
 DEFAULT_ATOL = 0.01
@@ -504,7 +505,13 @@ def describe(call):
 
 def run_call(P, system, call):
     fname, kw = call
-    return getattr(P, fname)(system, **kw)
+    try:
+        return getattr(P, fname)(system, **kw)
+    except ValueError as e:
+        if system.natoms == 1 and 'pos' in kw and type(e).__name__ == 'AxisError':
+            # System.dvect returns a single (3,) vector for one pair; point.py takes norm(..., axis=1) of it
+            raise Violation('%s on a system with a single atom raised %s(%s)' % (describe(call), type(e).__name__, e), key=KEY_ONE)
+        raise
 
 
 def do_step(am, P, env, system, m, op, first, first_snap, step):
@@ -590,6 +597,8 @@ def run_history(case, allow_int_key=True):
         labels.add('mixed_pbc')
     if m.old_id is not None:
         labels.add('had_old_id')
+    if m.n == 1:
+        labels.add('one_atom')
     if case['sys'].get('twins'):
         labels.add('twin')
     nok = 0
@@ -676,6 +685,7 @@ _BASES = {
 _NB = {'sc': 1, 'bcc': 2, 'fcc': 4, 'off': 2, 'g1': 1, 'g2': 2, 'g3': 3}
 _LATS = [((a, b, c), name) for a in (1, 2, 3) for b in (1, 2, 3) for c in (1, 2, 3) for name in sorted(_NB)
          if 2 <= a * b * c * _NB[name] <= 40]
+_LATS[60:60] = [((1, 1, 1), 'sc'), ((1, 1, 1), 'g1')]          # single-atom systems, away from the ends of the list
 _lat = st.sampled_from(_LATS)
 _mode = st.sampled_from(['lat', 'lat', 'gen'])
 _gcoord = gens.nice(0.05, 0.95, 3)
